@@ -198,11 +198,16 @@ impl Sched {
 
 /// schedules with 2^min_log_d <= D <= 2^max_log_d (min_log_d >= 3)
 pub fn sched_strategy(min_log_d: u32, max_log_d: u32) -> BoxedStrategy<Sched> {
+    sched_strategy_layers(0, min_log_d, max_log_d)
+}
+
+/// as `sched_strategy`, with at least `min_layers` (0..=2) committed layers
+pub fn sched_strategy_layers(min_layers: u8, min_log_d: u32, max_log_d: u32) -> BoxedStrategy<Sched> {
     // (log_n, layers, log_rem, log_blowup, rmd selector); invalid combinations are repaired
     // monotonically (never rejected) so that shrinking keeps working
     (1u8..=4, 0u8..=7, 0u8..=8, 1u8..=7, 0u8..=3)
         .prop_map(move |(log_n, layers, log_rem, log_blowup, rsel)| {
-            let mut s = Sched { log_n, layers, log_rem, log_blowup, log_rmd1: 0 };
+            let mut s = Sched { log_n, layers: layers.max(min_layers), log_rem, log_blowup, log_rmd1: 0 };
             // fit into the size window: drop layers, then remainder size, then blowup
             while s.log_domain() > max_log_d {
                 // shrink the largest contributor first (keeps layers / remainder / blowup balanced)
@@ -212,12 +217,15 @@ pub fn sched_strategy(min_log_d: u32, max_log_d: u32) -> BoxedStrategy<Sched> {
                     s.log_rem -= 1;
                 } else if blow >= lay && s.log_blowup > 1 {
                     s.log_blowup -= 1;
-                } else if s.layers > 0 {
+                } else if s.layers > min_layers {
                     s.layers -= 1;
                 } else if s.log_rem > 0 {
                     s.log_rem -= 1;
-                } else {
+                } else if s.log_blowup > 1 {
                     s.log_blowup -= 1;
+                } else {
+                    // min_layers foldings by N do not fit into the window: fold by less
+                    s.log_n -= 1;
                 }
             }
             while s.log_domain() < min_log_d {
